@@ -32,10 +32,18 @@ package gitlab
 //@   props C16
 //@   nopanic
 //@   requires client != nil && issue != nil
+// The paging goroutine of Issues: a failed listing request ends the stream, and the failure is handed to the
+// importer on the error channel - an incomplete listing must not pass for a complete one (the bridge would
+// store the new cursor and the issues of the failed page would never be imported).
 //@ func Issues$1
 //@   props C16
 //@   nopanic
-//@   requires client != nil
+//@   requires client != nil && errs != out
+//@   ensures [listing-failure-is-reported] gitlab.issueListFailures > old(gitlab.issueListFailures) ==> sentcount(errs) == 1
+//@   loop 1
+//@     invariant gitlab.issueListFailures == old(gitlab.issueListFailures) && sentcount(errs) == 0
+//@   loop 2
+//@     invariant sentcount(errs) == 0
 
 // Event accessors are deterministic reads of the event value.
 //@ func Event.ID
